@@ -1,6 +1,7 @@
 import NodisVerif.Proofs.C20Finds
 import NodisVerif.Proofs.C20Keys
 import NodisVerif.Proofs.C20ZStoreEx
+import NodisVerif.Proofs.ProtoWireMsg
 /-
   C20 — The change feed replays on a replica.
 
@@ -397,5 +398,146 @@ theorem late_apply_finding :
    Later replica time: `late_apply_finding` — a record applied after a deadline it does not carry has
      passed diverges; batches are applied at the time of their call (`applyBatches`), and the result
      holds at every later time (`same_later`). -/
+
+/-! ### the wire encoding of change records (patch/patch.go `Op.Encode` / `DecodeOp` over protobuf)
+
+  Model: `Model/ProtoWire.lean` — the proto3 wire format restricted to the field kinds of patch/op.proto
+  (string, bytes, int64, bool, double, repeated string / bytes, packed repeated double), schema-driven:
+  `marshal sch vs` (bytes + the error flag Marshal returns and `Op.Encode` drops), `unmarshal sch b`
+  (values + retained unknown bytes, `none` = error), `encodeOp` / `decodeOp` = type byte + message over
+  the table `opTable` of the 36 operation types.  The table is regenerated from patch/op.pb.go and
+  patch/patch.go on every run and compared (`Tie.source_patch_table_is_the_model_table`); model and code are
+  compared byte for byte on every run (checks/patchwire.py: every type x edge values, malformed inputs).
+
+  This replaces the former assumption "protobuf round-trips valid UTF-8 strings and all byte fields" by
+  theorems.  Well-formed (`wfVals`, `Op.wf`; decidable): the value list fits the schema, int64 values are
+  in range, `string` values (and every element of a repeated string) are valid UTF-8 (`validUTF8` = Go's
+  utf8.Valid), every byte string is shorter than 2^63 (a Go slice length; the model's lists are
+  unbounded), no retained unknown bytes. -/
+
+section Wire
+open NodisVerif.ProtoWire NodisVerif.Proofs.ProtoWire
+
+/-- Unmarshal ∘ Marshal = id on well-formed values, for EVERY schema with distinct field numbers in
+    1 … 2^29-1 (in particular every schema of the table: `wire_table_schemas_ok`), all sizes.
+    proto3's "absent = default" needs no normalisation here: a field holding its default value is not
+    emitted and decodes to the default it already is. Marshal reports no error. -/
+theorem decode_encode (sch : Schema) (hs : schemaOk sch = true) (vs : List PVal) (hwf : wfVals sch vs = true) :
+    decodeMsg sch (encodeMsg sch vs) = some vs ∧ (marshal sch vs).2 = false := by
+  refine ⟨?_, marshal_ok hs hwf⟩
+  unfold decodeMsg encodeMsg
+  rw [unmarshal_marshal hs hwf]
+  rfl
+
+/-- … and nothing is retained as unknown -/
+theorem unmarshal_marshal_exact (sch : Schema) (hs : schemaOk sch = true) (vs : List PVal)
+    (hwf : wfVals sch vs = true) : unmarshal sch (marshal sch vs).1 = some { vals := vs, unknown := [] } :=
+  unmarshal_marshal hs hwf
+
+/-- every message schema of the table qualifies -/
+theorem wire_table_schemas_ok (t : Nat) (sch : Schema) (h : schemaOf t = some sch) : schemaOk sch = true :=
+  schemaOf_ok h
+
+/-- DecodeOp (Encode op) = op for every operation type of the table and every well-formed record;
+    Marshal reports no error for it -/
+theorem decodeOp_encodeOp (op : Op) (h : op.wf = true) :
+    decodeOp (encodeOp op) = .ok op ∧ encodeFails op = false :=
+  ⟨Proofs.ProtoWire.decodeOp_encodeOp h, encodeFails_wf h⟩
+
+/-- different well-formed records never share an encoding -/
+theorem encode_injective (a b : Op) (ha : a.wf = true) (hb : b.wf = true) (h : encodeOp a = encodeOp b) :
+    a = b := by
+  have h1 := Proofs.ProtoWire.decodeOp_encodeOp ha
+  have h2 := Proofs.ProtoWire.decodeOp_encodeOp hb
+  rw [h] at h1
+  rw [h1] at h2
+  exact Except.ok.inj h2
+
+/-- the same for messages of one schema -/
+theorem encodeMsg_injective (sch : Schema) (hs : schemaOk sch = true) (vs ws : List PVal)
+    (hv : wfVals sch vs = true) (hw : wfVals sch ws = true) (h : encodeMsg sch vs = encodeMsg sch ws) :
+    vs = ws := by
+  have h1 := (decode_encode sch hs vs hv).1
+  have h2 := (decode_encode sch hs ws hw).1
+  rw [h] at h1
+  rw [h1] at h2
+  exact Option.some.inj h2
+
+/-- DecodeOp is total (the repair 12a5893 as a theorem): every input gives a record or one of three
+    errors — empty input and unknown operation types are errors, not panics; and the model's answer does
+    not depend on fuel: both loops (Unmarshal's field loop, the skipper of nested groups) give the same
+    result for every amount of fuel at least the length of their input, so the `none` of an exhausted
+    loop is never what the model answers. -/
+theorem decode_total :
+    decodeOp [] = .error .empty ∧
+    (∀ (t : UInt8) (body : Bytes), schemaOf t.toNat = none → decodeOp (t :: body) = .error .unknownType) ∧
+    (∀ (t : UInt8), schemaOf t.toNat = none ↔ (t.toNat = 0 ∨ 36 < t.toNat)) ∧
+    (∀ (t : UInt8) (body : Bytes) (sch : Schema), schemaOf t.toNat = some sch →
+      decodeOp (t :: body) = match unmarshal sch body with
+        | none => .error .wire
+        | some m => .ok { typ := t, msg := m }) ∧
+    (∀ (sch : Schema) (f : Nat) (b : Bytes) (m : Msg), b.length ≤ f →
+      decodeLoop sch f b m = decodeLoop sch b.length b m) ∧
+    (∀ (f : Nat) (stack : List Nat) (b : Bytes), b.length < f →
+      skipGroup f stack b = skipGroup (b.length + 1) stack b) := by
+  refine ⟨rfl, ?_, ?_, ?_, ?_, ?_⟩
+  · intro t body h
+    simp only [decodeOp, h]
+  · intro t
+    have hlt := t.toNat_lt
+    generalize t.toNat = n at hlt
+    have key : ∀ k, k < 256 → (schemaOf k).isNone = (k == 0 || decide (36 < k)) := by decide +kernel
+    have hk := key n hlt
+    cases hs : schemaOf n with
+    | none =>
+      simp only [hs, Option.isNone_none] at hk
+      simp only [true_iff]
+      have := hk.symm
+      simp only [Bool.or_eq_true, beq_iff_eq, decide_eq_true_eq] at this
+      exact this
+    | some sch =>
+      simp only [hs, Option.isNone_some] at hk
+      have := hk.symm
+      simp only [Bool.or_eq_false_iff, beq_eq_false_iff_ne, decide_eq_false_iff_not] at this
+      simp only [reduceCtorEq, false_iff]
+      omega
+  · intro t body sch h
+    simp only [decodeOp, h]
+    cases unmarshal sch body <;> rfl
+  · intro sch f b m h
+    exact decodeLoop_fuel sch f b.length b m h (Nat.le_refl _)
+  · intro f stack b h
+    exact skipGroup_fuel f (b.length + 1) stack b h (Nat.lt_succ_self _)
+
+/-- hypotheses satisfiable: a SET record with a two-byte UTF-8 key, a value that is not UTF-8, KeepTTL and
+    a negative deadline; its encoding, byte for byte; a ZUNIONSTORE record with an empty operand name and
+    -0.0 / NaN weights -/
+example : ({ typ := 25, msg := { vals := [.bytes [0xc3, 0xa9], .bytes [0xff, 0x00], .bool true, .int (-1)] } } : Op).wf = true ∧
+    encodeOp { typ := 25, msg := { vals := [.bytes [0xc3, 0xa9], .bytes [0xff, 0x00], .bool true, .int (-1)] } }
+      = [25, 0x0a, 2, 0xc3, 0xa9, 0x12, 2, 0xff, 0x00, 0x18, 1, 0x20, 0xff, 0xff, 0xff, 0xff, 0xff, 0xff, 0xff, 0xff, 0xff, 0x01] ∧
+    ({ typ := 34, msg := { vals := [.bytes [100], .list [[97], [], [98]], .f64s [0x8000000000000000, 0x7ff8000000000001], .bytes [83]] } } : Op).wf = true := by
+  decide +kernel
+
+/-- known finding A-200 inside the model: a record whose key is not valid UTF-8 is not well-formed;
+    Marshal appends the key, reports the error, `Op.Encode` drops the error and ships the truncated
+    message (the value is lost), and DecodeOp rejects what was shipped -/
+theorem encode_invalid_utf8_finding :
+    let op : Op := { typ := 25, msg := { vals := [.bytes [0xff], .bytes [118], .bool false, .int 0] } }
+    op.wf = false ∧ encodeFails op = true ∧ encodeOp op = [25, 0x0a, 1, 0xff] ∧
+    decodeOp (encodeOp op) = .error .wire := by
+  decide +kernel
+
+/-- what DecodeOp tolerates beyond Encode's output (Go's Unmarshal does): fields in any order, the last
+    occurrence of a scalar wins, unknown fields (here number 5, a group holding a varint) are skipped and
+    retained, packed and unpacked doubles mix; re-encoding is canonical, so DecodeOp is not injective -/
+theorem decode_tolerant_examples :
+    decodeOp [25, 0x20, 5, 0x0a, 1, 107, 0x2b, 0x08, 1, 0x2c, 0x20, 7, 0x0a, 1, 108]
+      = .ok { typ := 25, msg := { vals := [.bytes [108], .bytes [], .bool false, .int 7], unknown := [0x2b, 0x08, 1, 0x2c] } } ∧
+    decodeOp [34, 0x19, 0, 0, 0, 0, 0, 0, 0xf0, 0x3f, 0x1a, 8, 0, 0, 0, 0, 0, 0, 0, 0x40]
+      = .ok { typ := 34, msg := { vals := [.bytes [], .list [], .f64s [0x3ff0000000000000, 0x4000000000000000], .bytes []] } } ∧
+    decodeOp [25, 0x8a, 0x00, 1, 107] = decodeOp [25, 0x0a, 1, 107] := by
+  decide +kernel
+
+end Wire
 
 end NodisVerif.C20
